@@ -80,6 +80,14 @@ def run(ctx):
     for i in range(ctx.scale(2500, 60000)):
         text = gen.soup(ctx.rng, maxparts=8)
         run_one(ctx, text, ctx.rng.choice(frags))
+    # every tokenizer error site: short strings over the tokenizer alphabet, raw and inside a tag / attribute value
+    import itertools
+    alpha = ["<", ">", "/", "!", "-", "?", "=", '"', "'", "&", "#", ";", "x", "A", "0", " ", "\x00", "]"]
+    L = ctx.scale(2, 3)
+    shorts = ["".join(t) for n in range(1, L + 1) for t in itertools.product(alpha, repeat=n)]
+    for sh in shorts:
+        for text in (sh, "<a " + sh + ">", "<a b=" + sh + ">", "<!DOCTYPE " + sh + ">", "<!--" + sh + "-->"):
+            run_one(ctx, text, None)
     # EOF at every offset of some documents (reaches the EOF sites of every tokenizer state)
     docs = ["<!DOCTYPE html PUBLIC \"a\" 'b'><a b='c' d=\"e\" f=g h>x</a><!-- c --><![CDATA[x]]><script><!--<script>--></script></script>&amp;&#x41;&#65;",
             "<title>a&amp;</title><textarea>\n</textarea><svg><![CDATA[x]]></svg><!DOCTYPE a SYSTEM \"x\"><?pi?></ x><a/><a b/ c=>"]
